@@ -321,6 +321,7 @@ func voNewWorld() *voWorld {
 }
 
 func (w *voWorld) cleanup() {
+	println("cleanup", w == nil)
 	if verifSymbolic() {
 		return
 	}
@@ -393,6 +394,9 @@ func (fi voFileInfo) IsDir() bool        { return fi.dir }
 func (fi voFileInfo) Sys() any           { return nil }
 
 func voOsStat(name string) (os.FileInfo, error) {
+	if voW == nil {
+		panic("verif: os.Stat(" + name + ") before the world exists")
+	}
 	n, ok := voW.nodes[name]
 	if !ok {
 		return nil, voErrNotExist
@@ -1165,10 +1169,10 @@ func (w *voWorld) bootstrap(s *Store) {
 	w.waitReady(s)
 }
 
-// started: the node came up from existing state with configuration conf.
-func (w *voWorld) started(s *Store, conf []voServer) {
+// started: the node came up from existing state.
+func (w *voWorld) started(s *Store) {
 	w.s = s
-	w.electable = voElectable(conf)
+	w.electable = voElectable(w.raftConf())
 	if verifSymbolic() {
 		if w.electable {
 			w.elected()
@@ -1609,4 +1613,31 @@ func (w *voWorld) newestSnapshotIndex() uint64 {
 		return 0
 	}
 	return metas[0].Index
+}
+
+// reflectedIndex: the index of the last log entry the node's database reflects once everything
+// the node holds is applied - the last command entry of the log or the newest snapshot's index,
+// whichever is greater (0: neither).
+func (w *voWorld) reflectedIndex() uint64 {
+	idx := w.newestSnapshotIndex()
+	if verifSymbolic() {
+		for i, e := range w.ents {
+			if e.typ == raft.LogCommand && w.first+uint64(i) > idx {
+				idx = w.first + uint64(i)
+			}
+		}
+		return idx
+	}
+	fi, li, err := w.s.boltStore.Indexes()
+	if err != nil {
+		panic(err)
+	}
+	ci, err := w.s.boltStore.LastCommandIndex(fi, li)
+	if err != nil {
+		panic(err)
+	}
+	if ci > idx {
+		idx = ci
+	}
+	return idx
 }
